@@ -13,7 +13,7 @@ DEFAULT_WEIGHTS = {
     'wait': 10, 'setflag': 5, 'settracked': 5, 'lock': 4, 'put': 4, 'get': 3, 'iter': 2,
     'close': 1, 'borrow': 4, 'resource': 2, 'transfer': 3, 'scope': 6, 'until': 6,
     'spawn': 2, 'cancel': 3, 'await_task': 3, 'raise': 1, 'ticker': 2, 'collect': 2,
-    'first': 2,
+    'first': 2, 'guard': 1,
 }
 
 
@@ -70,12 +70,14 @@ class Gen:
         rng = self.rng
         weights = dict(self.weights)
         if depth >= self.max_depth:
-            for key in ('lock', 'borrow', 'scope', 'until', 'ticker', 'collect', 'first', 'iter'):
+            for key in ('lock', 'borrow', 'scope', 'until', 'ticker', 'collect', 'first', 'iter',
+                        'guard'):
                 weights[key] = 0
         if not self.tasks:
             weights['cancel'] = weights['await_task'] = 0
         if depth == 0:
             weights['spawn'] = 0
+            weights['guard'] = 0
         ops = [op for op, weight in weights.items() if weight > 0]
         op = rng.choices(ops, [weights[o] for o in ops])[0]
         step = getattr(self, 'g_' + op)(depth)
@@ -247,6 +249,10 @@ class Gen:
 
     def g_spawn(self, depth):
         return {'op': 'spawn', 'child': self.child(depth)}
+
+    def g_guard(self, depth):
+        return {'op': 'guard', 'body': self.steps(depth + 1, self.rng.randint(1, 3)),
+                'child': self.child(depth)}
 
     def g_cancel(self, depth):
         rng = self.rng
